@@ -1,6 +1,9 @@
 use crate::engine::PropDef;
+pub mod c01;
+pub mod c02;
 pub mod c03;
+pub mod conv;
 
 pub fn all() -> Vec<PropDef> {
-    vec![c03::def()]
+    vec![c01::def(), c02::def(), c03::def()]
 }
